@@ -65,6 +65,7 @@ type HarnessResult struct {
 	ReverseMaps   bool               `json:"reversed_map_order"`
 	Validation    []ValidationSample `json:"validation"`
 	FieldLog      []fieldAccess      `json:"field_lockset_log"`
+	LockOrder     []lockEdge         `json:"lock_order_log"`
 }
 
 type KnownOut struct {
@@ -285,6 +286,10 @@ func main() {
 			r.FieldLog = append(r.FieldLog, fa)
 		}
 		fieldLog = map[string]fieldAccess{}
+		for _, e := range lockOrderLog {
+			r.LockOrder = append(r.LockOrder, e)
+		}
+		lockOrderLog = map[string]lockEdge{}
 		if *cross > 0 {
 			r.CrossChecked, r.CrossDisagree = crossCheckSamples(ex2, *cross)
 		}
